@@ -8,6 +8,7 @@ From NV Require Import Scalar.Ops Model.Common Model.Basis Model.Knots Model.Eva
   Proofs.Boehm Proofs.BasisR Proofs.KnotsR Proofs.EvalR Proofs.LinAlgSums Proofs.LinAlgR Proofs.LinAlgSolve Proofs.FitR Proofs.FitSurfR
   Transfer.BasisT Transfer.LinAlgT Transfer.FitT.
 From NV Require Import Proofs.FitSurfMore.
+From NV Require Import Proofs.LinAlgSums Proofs.LinAlgR Proofs.LinAlgSolve Proofs.LinAlgDet Proofs.LinAlgDetGen Proofs.FitSurfR Proofs.FitSurfMore Proofs.CollocationLU Proofs.CollocationLUMore Proofs.PosDefLU Proofs.ApproxLU Proofs.CollocationLUSurf Transfer.LinAlgT Transfer.FitT Transfer.CollocationLUT.
 Import ListNotations.
 
 (* [G] parameters (chord length or centripetal: any chords >= 0 with positive sum): first 0, last 1, non-decreasing,
@@ -317,3 +318,181 @@ Example C11_ex_approximate_surface_corners :
     map (fun uv => surface_point Qops 2 2 2 kvu kvv 3 3 P (fst uv) (snd uv)) [(0,0);(0,1);(1,0);(1,1)]%Q
       = [nth 0 exS []; nth 3 exS []; nth 8 exS []; nth 11 exS []].
 Proof. eexists. eexists. eexists. split; [vm_compute; reflexivity|]. vm_compute. repeat split. Qed.
+
+(* ====================== round 2 (Proofs/BsplineTP.v, CollocationLU*.v, ApproxLU.v, PosDefLU.v): the LU factorisations EXIST - total positivity of
+   B-spline collocation matrices (Schoenberg-Whitney for the averaged knots), positive definiteness of N^T N; every 'given pivots' theorem above now
+   has an unconditional version ====================== *)
+(* ================= Props/C11.v ================= *)
+(* [G] every degree, every size: Doolittle (no pivoting) meets no zero pivot on the interpolation matrix *)
+Theorem C11_collocation_pivots_nonzero : C11_collocation_pivots_nonzero_full.
+Proof. exact collocation_pivots_nonzero. Qed.
+Print Assumptions C11_collocation_pivots_nonzero.
+
+(* [G] Schoenberg-Whitney for the averaged knot vector (Eq 9.8) *)
+Theorem C11_averaged_knots_schoenberg_whitney : forall (p n : nat) (uk : list R), (1 <= p < n)%nat -> length uk = n ->
+  nth 0 uk 0%R = 0%R -> nth (n - 1) uk 0%R = 1%R -> (forall i, (S i < n)%nat -> (nth i uk 0 < nth (S i) uk 0)%R) ->
+  let kv := compute_knot_vector Rops p n uk in
+  forall j, (j < n)%nat ->
+    (nth j kv 0 <= nth j uk 0 <= nth (j + p + 1) kv 0)%R /\
+    ((0 < j)%nat -> (nth j kv 0 < nth j uk 0)%R) /\ ((j < n - 1)%nat -> (nth j uk 0 < nth (j + p + 1) kv 0)%R).
+Proof. exact averaged_knots_schoenberg_whitney. Qed.
+Print Assumptions C11_averaged_knots_schoenberg_whitney.
+
+(* [G] structure of the interpolation matrix: Cox-de Boor values, first row e_0, last row e_{n-1}, banded,
+   non-negative, rows sum to 1, strictly positive diagonal *)
+Theorem C11_collocation_matrix_structure : forall (p n : nat) (uk : list R), (1 <= p < n)%nat -> length uk = n ->
+  nth 0 uk 0%R = 0%R -> nth (n - 1) uk 0%R = 1%R -> (forall i, (S i < n)%nat -> (nth i uk 0 < nth (S i) uk 0)%R) ->
+  let kv := compute_knot_vector Rops p n uk in let A := build_coeff_matrix Rops p kv uk n in
+  length A = n /\
+  (forall i j, (i < n - 1)%nat -> (j < n)%nat -> get2 Rops A i j = N (Ufun kv) p j (nth i uk 0%R)) /\
+  (forall j, (j < n)%nat -> get2 Rops A 0 j = if Nat.eqb j 0 then 1%R else 0%R) /\
+  (forall j, (j < n)%nat -> get2 Rops A (n - 1) j = if Nat.eqb j (n - 1) then 1%R else 0%R) /\
+  (forall i j, (i < n)%nat -> (j < n)%nat -> let s := find_span_linear Rops p kv n (nth i uk 0%R) in
+      (p <= s < n)%nat /\ ((j < s - p \/ s < j)%nat -> get2 Rops A i j = 0%R) /\ (0 <= get2 Rops A i j)%R) /\
+  (forall i, (i < n)%nat -> sumr Rops 0 n (fun j => get2 Rops A i j) = 1%R) /\
+  (forall j, (j < n)%nat -> (0 < get2 Rops A j j)%R).
+Proof. exact collocation_matrix_structure. Qed.
+Print Assumptions C11_collocation_matrix_structure.
+
+(* [G] all leading principal minors (Leibniz determinants of the top-left blocks) and all pivots are > 0 *)
+Theorem C11_collocation_pivots_positive : forall (p n : nat) (uk : list R), (1 <= p < n)%nat -> length uk = n ->
+  nth 0 uk 0%R = 0%R -> nth (n - 1) uk 0%R = 1%R -> (forall i, (S i < n)%nat -> (nth i uk 0 < nth (S i) uk 0)%R) ->
+  forall i, (i < n)%nat ->
+    (0 < get2 Rops (snd (doolittle Rops (build_coeff_matrix Rops p (compute_knot_vector Rops p n uk) uk n))) i i)%R /\
+    (0 < leibF (S i) (fun r c => get2 Rops (build_coeff_matrix Rops p (compute_knot_vector Rops p n uk) uk n) c r))%R.
+Proof.
+  intros p n uk Hp HL H0 H1 Hinc i Hi. split; [apply collocation_pivots_positive|apply collocation_leading_minors_positive]; assumption.
+Qed.
+Print Assumptions C11_collocation_pivots_positive.
+
+(* [G] one interpolation solve with the averaged knot vector: NO pivot hypothesis *)
+Theorem C11_interpolation_solve_conditions_unconditional : forall (p n dim : nat) (uk : list R) (pts : list (list R)),
+  (1 <= p < n)%nat -> length uk = n ->
+  nth 0 uk 0%R = 0%R -> nth (n - 1) uk 0%R = 1%R -> (forall i, (S i < n)%nat -> (nth i uk 0 < nth (S i) uk 0)%R) -> rect n dim pts ->
+  let kv := compute_knot_vector Rops p n uk in
+  exists P, interp_1d Rops p kv uk pts = Ok P /\ rect n dim P /\
+    forall i d, (i < n)%nat -> (d < dim)%nat -> nth d (curve_point Rops dim p kv P (nth i uk 0%R)) 0%R = get2 Rops pts i d.
+Proof. exact interp_1d_averaged_conditions. Qed.
+Print Assumptions C11_interpolation_solve_conditions_unconditional.
+
+(* [G] THE PROPERTY (curves): data with strictly positive chords (distinct consecutive points), any degree 1 <= p < n:
+   interpolate_curve returns a curve and it passes through every data point at its parameter *)
+Theorem C11_interpolate_curve_interpolates : forall (pts : list (list R)) (p dim : nat) (cds : list R),
+  let n := length pts in
+  length cds = (n - 1)%nat -> (1 <= p < n)%nat -> rect n dim pts -> (forall x, In x cds -> (0 < x)%R) ->
+  exists uk P, compute_params_curve Rops cds = Ok uk /\
+    interpolate_curve Rops pts p cds = Ok (P, compute_knot_vector Rops p n uk) /\ rect n dim P /\
+    nth 0 uk 0%R = 0%R /\ nth (n - 1) uk 0%R = 1%R /\
+    forall k d, (k < n)%nat -> (d < dim)%nat ->
+      nth d (curve_point Rops dim p (compute_knot_vector Rops p n uk) P (nth k uk 0%R)) 0%R = get2 Rops pts k d.
+Proof. exact interpolate_curve_interpolates. Qed.
+Print Assumptions C11_interpolate_curve_interpolates.
+
+(* [G] surfaces: strictly increasing averaged parameters in both directions: no span / pivot hypotheses *)
+Theorem C11_interpolate_surface_interpolates :
+  forall (pts : list (list R)) (su sv pu pv dim : nat) (cdsU cdsV : list (list R)) (uk vl : list R),
+  (1 <= pu < su)%nat -> (1 <= pv < sv)%nat -> rect (su * sv) dim pts ->
+  compute_params_surface Rops su sv cdsU cdsV = Ok (uk, vl) ->
+  increasing_params su uk -> increasing_params sv vl ->
+  let kvu := compute_knot_vector Rops pu su uk in let kvv := compute_knot_vector Rops pv sv vl in
+  exists P, interpolate_surface Rops pts su sv pu pv cdsU cdsV = Ok (P, kvu, kvv) /\ length P = (su * sv)%nat /\
+    forall u v d, (u < su)%nat -> (v < sv)%nat -> (d < dim)%nat ->
+      nth d (surface_point Rops dim pu pv kvu kvv su sv P (nth u uk 0%R) (nth v vl 0%R)) 0%R = get2 Rops pts (v + sv * u) d.
+Proof. exact interpolate_surface_interpolates. Qed.
+Print Assumptions C11_interpolate_surface_interpolates.
+
+(* [G] the EXECUTABLE rational instance: no zero pivot, interp_1d Qops returns control points solving the system *)
+Theorem C11_collocation_pivots_nonzero_Q : forall (p n : nat) (uk : list Q), (1 <= p < n)%nat -> length uk = n ->
+  (nth 0 uk 0 == 0)%Q -> (nth (n - 1) uk 0 == 1)%Q -> (forall i, (S i < n)%nat -> (nth i uk 0 < nth (S i) uk 0)%Q) ->
+  forall i, (i < n)%nat ->
+    ~ (get2 Qops (snd (doolittle Qops (build_coeff_matrix Qops p (compute_knot_vector Qops p n uk) uk n))) i i == 0)%Q.
+Proof. exact collocation_pivots_nonzero_Q. Qed.
+Print Assumptions C11_collocation_pivots_nonzero_Q.
+
+
+(* [G] THE PROPERTY (surfaces): every row / column of the data grid has strictly positive chords, 1 <= pu < su, 1 <= pv < sv:
+   interpolate_surface returns a surface and it passes through every data point; no span / pivot hypotheses *)
+Theorem C11_interpolate_surface_interpolates_from_chords :
+  forall (pts : list (list R)) (su sv pu pv dim : nat) (cdsU cdsV : list (list R)),
+  (1 <= pu < su)%nat -> (1 <= pv < sv)%nat -> rect (su * sv) dim pts -> cdsU <> [] -> cdsV <> [] ->
+  (forall cds, In cds cdsU -> length cds = (su - 1)%nat /\ forall x, In x cds -> (0 < x)%R) ->
+  (forall cds, In cds cdsV -> length cds = (sv - 1)%nat /\ forall x, In x cds -> (0 < x)%R) ->
+  exists uk vl P, compute_params_surface Rops su sv cdsU cdsV = Ok (uk, vl) /\
+    let kvu := compute_knot_vector Rops pu su uk in let kvv := compute_knot_vector Rops pv sv vl in
+    interpolate_surface Rops pts su sv pu pv cdsU cdsV = Ok (P, kvu, kvv) /\ length P = (su * sv)%nat /\
+    increasing_params su uk /\ increasing_params sv vl /\
+    forall u v d, (u < su)%nat -> (v < sv)%nat -> (d < dim)%nat ->
+      nth d (surface_point Rops dim pu pv kvu kvv su sv P (nth u uk 0%R) (nth v vl 0%R)) 0%R = get2 Rops pts (v + sv * u) d.
+Proof. exact interpolate_surface_interpolates_from_chords. Qed.
+Print Assumptions C11_interpolate_surface_interpolates_from_chords.
+
+(* [G] least squares: the normal-equation matrix N^T N (knots of Eq 9.69) has only non-zero Doolittle pivots,
+   every degree p >= 1, every p + 2 <= c <= r - 1 *)
+Theorem C11_approx_normal_pivots_nonzero : forall (p r c : nat) (params : list R), (1 <= p)%nat -> (p + 2 <= c)%nat -> (c < r)%nat ->
+  length params = r -> nth 0 params 0%R = 0%R -> nth (r - 1) params 0%R = 1%R ->
+  (forall i, (S i < r)%nat -> (nth i params 0 < nth (S i) params 0)%R) ->
+  forall i, (i < c - 2)%nat ->
+    let Nm := approx_N Rops p c (compute_knot_vector2 Rops p r c params) params r in
+    get2 Rops (snd (doolittle Rops (mmul Rops (transpose Rops Nm) Nm))) i i <> 0%R.
+Proof. exact approx_normal_pivots_nonzero. Qed.
+Print Assumptions C11_approx_normal_pivots_nonzero.
+
+(* [G] Schoenberg-Whitney for the knot vector of Eq 9.69 (sigma j = max(j, ceil((j-p) r / (c-p))) is strictly increasing) *)
+Theorem C11_knot_vector2_schoenberg_whitney : forall (p r c : nat) (params : list R), (1 <= p)%nat -> (p + 2 <= c)%nat -> (c < r)%nat ->
+  length params = r -> nth 0 params 0%R = 0%R -> nth (r - 1) params 0%R = 1%R ->
+  (forall i, (S i < r)%nat -> (nth i params 0 < nth (S i) params 0)%R) ->
+  let kv := compute_knot_vector2 Rops p r c params in
+  sortedR kv /\ length kv = (c + p + 1)%nat /\
+  (forall j, (sigma p r c j < sigma p r c (S j))%nat) /\
+  forall j, (1 <= j <= c - 2)%nat -> (1 <= sigma p r c j <= r - 2)%nat /\
+    (nth j kv 0 < nth (sigma p r c j) params 0 < nth (j + p + 1) kv 0)%R.
+Proof. exact knot_vector2_schoenberg_whitney. Qed.
+Print Assumptions C11_knot_vector2_schoenberg_whitney.
+
+(* [G] THE PROPERTY (least-squares curves): strictly positive chords, p >= 1, p + 2 <= c <= r - 1: approximate_curve returns,
+   keeps the end points, every coordinate of the interior control points minimises the summed squared residual; no pivot hypothesis *)
+Theorem C11_approximate_curve_least_squares_unconditional : forall (pts : list (list R)) (p c dim : nat) (cds : list R),
+  let r := length pts in
+  length cds = (r - 1)%nat -> (1 <= p)%nat -> (p + 2 <= c)%nat -> (c < r)%nat -> rect r dim pts -> (forall x, In x cds -> (0 < x)%R) ->
+  exists uk X, compute_params_curve Rops cds = Ok uk /\
+    approximate_curve Rops pts p c cds = Ok ([nth 0 pts []] ++ X ++ [nth (r - 1) pts []], compute_knot_vector2 Rops p r c uk) /\
+    rect (c - 2) dim X /\
+    let kv := compute_knot_vector2 Rops p r c uk in
+    let Nm := approx_N Rops p c kv uk r in let Rk := approx_Rk Rops p c kv uk pts in
+    forall d (X' : nat -> R), (d < dim)%nat ->
+      (sumr Rops 0 (r - 2) (fun i => (sumr Rops 0 (c - 2) (fun k => get2 Rops Nm i k * get2 Rops X k d) - get2 Rops Rk i d) * (sumr Rops 0 (c - 2) (fun k => get2 Rops Nm i k * get2 Rops X k d) - get2 Rops Rk i d))
+       <= sumr Rops 0 (r - 2) (fun i => (sumr Rops 0 (c - 2) (fun k => get2 Rops Nm i k * X' k) - get2 Rops Rk i d) * (sumr Rops 0 (c - 2) (fun k => get2 Rops Nm i k * X' k) - get2 Rops Rk i d)))%R.
+Proof. exact approximate_curve_least_squares_unconditional. Qed.
+Print Assumptions C11_approximate_curve_least_squares_unconditional.
+
+(* [G] THE PROPERTY (least-squares surfaces): corner control points = corner data points, surface passes through the corner data *)
+Theorem C11_approximate_surface_corners_unconditional :
+  forall (pts : list (list R)) (su sv pu pv cu cv dim : nat) (cdsU cdsV : list (list R)),
+  (1 <= pu)%nat -> (pu + 2 <= cu)%nat -> (cu < su)%nat -> (1 <= pv)%nat -> (pv + 2 <= cv)%nat -> (cv < sv)%nat ->
+  rect (su * sv) dim pts -> cdsU <> [] -> cdsV <> [] ->
+  (forall cds, In cds cdsU -> length cds = (su - 1)%nat /\ forall x, In x cds -> (0 < x)%R) ->
+  (forall cds, In cds cdsV -> length cds = (sv - 1)%nat /\ forall x, In x cds -> (0 < x)%R) ->
+  exists uk vl P, compute_params_surface Rops su sv cdsU cdsV = Ok (uk, vl) /\
+    let kvu := compute_knot_vector2 Rops pu su cu uk in let kvv := compute_knot_vector2 Rops pv sv cv vl in
+    approximate_surface Rops pts su sv pu pv cu cv cdsU cdsV = Ok (P, kvu, kvv) /\ length P = (cu * cv)%nat /\
+    nth 0 P [] = nth 0 pts [] /\
+    nth (cv - 1) P [] = nth (sv - 1) pts [] /\
+    nth (cv * (cu - 1)) P [] = nth (sv * (su - 1)) pts [] /\
+    nth (cv - 1 + cv * (cu - 1)) P [] = nth (sv - 1 + sv * (su - 1)) pts [] /\
+    forall d, (d < dim)%nat ->
+      nth d (surface_point Rops dim pu pv kvu kvv cu cv P 0%R 0%R) 0%R = get2 Rops pts 0 d /\
+      nth d (surface_point Rops dim pu pv kvu kvv cu cv P 0%R 1%R) 0%R = get2 Rops pts (sv - 1) d /\
+      nth d (surface_point Rops dim pu pv kvu kvv cu cv P 1%R 0%R) 0%R = get2 Rops pts (sv * (su - 1)) d /\
+      nth d (surface_point Rops dim pu pv kvu kvv cu cv P 1%R 1%R) 0%R = get2 Rops pts (sv - 1 + sv * (su - 1)) d.
+Proof. exact approximate_surface_corners_unconditional. Qed.
+Print Assumptions C11_approximate_surface_corners_unconditional.
+
+(* [G] executable instance of the normal equations *)
+Theorem C11_approx_normal_pivots_nonzero_Q : forall (p r c : nat) (uk : list Q), (1 <= p)%nat -> (p + 2 <= c)%nat -> (c < r)%nat ->
+  length uk = r -> (nth 0 uk 0 == 0)%Q -> (nth (r - 1) uk 0 == 1)%Q -> (forall i, (S i < r)%nat -> (nth i uk 0 < nth (S i) uk 0)%Q) ->
+  forall i, (i < c - 2)%nat ->
+    let Nm := approx_N Qops p c (compute_knot_vector2 Qops p r c uk) uk r in
+    ~ (get2 Qops (snd (doolittle Qops (mmul Qops (transpose Qops Nm) Nm))) i i == 0)%Q.
+Proof. exact approx_normal_pivots_nonzero_Q. Qed.
+Print Assumptions C11_approx_normal_pivots_nonzero_Q.
+
